@@ -187,3 +187,20 @@ func (b *B) Say(loud bool) (interface{}, error) {
 func (q *Query) Pv() (interface{}, error) { return q.r("pv", nil) }
 func (q *Query) Pp() (interface{}, error) { return q.r("pp", nil) }
 func (q *Query) Ps() (interface{}, error) { return q.r("ps", nil) }
+
+// NilOf is a nil pointer of the Go type that realises the GraphQL type (for an interface or union one of its members).
+func NilOf(typeName string) interface{} {
+	switch typeName {
+	case "B":
+		return (*B)(nil)
+	case "C":
+		return (*C)(nil)
+	case "P":
+		return (*P)(nil)
+	case "Query":
+		return (*Query)(nil)
+	case "Mutation":
+		return (*Mutation)(nil)
+	}
+	return (*A)(nil)
+}
